@@ -2,7 +2,7 @@
 from vf import gen, corecheck as cc, framework as fw, model_registry
 
 RULE = ("[counts are also read per source kind; M_SRC_DUP descriptors are keyed by the descriptor registered; batch timeout and token bucket are set and cleared on the periods of the user's timers] "
-        "colliding_topics profile: subscriptions whose topics share one probe chain of the module's subscription table (also across the table end), unsubscribed and re-subscribed in every order. oneshot_rearm profile: a one-shot timer / signal fires and its handler counts, deregisters and registers the same key again. registry profile: 15-90 register/deregister calls per scenario over descriptors, timers (periods from 1 ns to 2^63-1 ns "
+        "oneshot_sub_replaced profile: a one-shot subscription fires (and leaves the set) - or was replaced while its message was in flight (the replacement stays). colliding_topics profile: subscriptions whose topics share one probe chain of the module's subscription table (also across the table end), unsubscribed and re-subscribed in every order. oneshot_rearm profile: a one-shot timer / signal fires and its handler counts, deregisters and registers the same key again. registry profile: 15-90 register/deregister calls per scenario over descriptors, timers (periods from 1 ns to 2^63-1 ns "
         "incl. pairs 2^32 / 2^31+7 apart), signals, paths, pids, tasks, thresholds (pairs with equal sums) and topic subscriptions, "
         "keys drawn from small colliding pools, on idle, running, paused and stopped modules, interleaved with pause/resume/stop/"
         "start, invalid parameter combinations, with and without loop runs (no event is ever produced, so the reference sets are "
@@ -41,6 +41,11 @@ def run(tier):
     for k in range(24 if tier == "quick" else 600):
         c = cc.Case()
         c.sc, c.profile, c.mode, c.seed = gen.gen_colliding_topics(seed * 1000 + k), "colliding_topics", ("loop" if k % 2 else "dispatch"), seed * 1000 + k
+        cases.append(c)
+
+    for k in range(24 if tier == "quick" else 600):
+        c = cc.Case()
+        c.sc, c.profile, c.mode, c.seed = gen.gen_oneshot_sub_replaced(seed * 1000 + k), "oneshot_sub_replaced", ("loop" if k % 2 else "dispatch"), seed * 1000 + k
         cases.append(c)
 
     def oracle(case):
